@@ -178,6 +178,7 @@ def run(tier, seed, replay=None):
         "multi-directory projects in which the same relative dependency string occurs in several COND files" % (ALPHA, depth, ALPHA2, 4 if tier == "quick" else 5)
     )
     relative_resolution(chk)
+    names_in_declarations(chk, tier)
     chk.coverage["distribution"]["length"] = {str(k): v for k, v in sorted(lens.items())}
 
     if chk.coq.model_ok:
@@ -215,6 +216,46 @@ def run(tier, seed, replay=None):
     return chk.finish()
 
 
+def names_in_declarations(chk, tier):
+    """the name grammar at every place a task name is DECLARED: run_command, run_experiment, group, combine, the name of
+    a run_experiment_group and the names of its instances -- every string over the symbol classes up to length 2 (3 when
+    thorough) plus special ones; accepted iff the documented grammar accepts the name (real TaskIndex, real files)"""
+    import implrun
+    import pathlib
+    from conductor.errors import ConductorError
+    from conductor.parsing.task_index import TaskIndex
+    from conductor.task_identifier import TaskIdentifier
+
+    names = strings_upto(ALPHA, 2 if tier == "quick" else 3) + ["bad name", "sub/x", "v1.2", "a:b", "x\n", "caf\u00e9", "..", "x.task.1", "ok-1_2", "A", "9", "-", "_x"]
+    forms = {
+        "run_command": 'run_command(name=%s, run="true")\n',
+        "run_experiment": 'run_experiment(name=%s, run="true")\n',
+        "group": 'group(name=%s, deps=[":ok"])\n',
+        "combine": 'combine(name=%s, deps=[":ok"])\n',
+        "run_experiment_group": 'run_experiment_group(name=%s, run="true", experiments=[ExperimentInstance(name="i1")])\n',
+        "ExperimentInstance": 'run_experiment_group(name="grp", run="true", experiments=[ExperimentInstance(name=%s)])\n',
+    }
+    for form, tmpl in forms.items():
+        for nm in names:
+            if nm in ("ok", "i1", "grp"):
+                continue
+            root = implrun.make_project({"COND": 'run_command(name="ok", run="true")\n' + tmpl % repr(nm)})
+            idx = TaskIndex(pathlib.Path(root))
+            try:
+                idx.load_transitive_closure(TaskIdentifier.from_str("//:ok"))
+                accepted = True
+            except ConductorError:
+                accepted = False
+            except Exception as e:  # pylint: disable=broad-except
+                accepted = "raised %s" % type(e).__name__
+            chk.coverage["evaluations"] += 1
+            want = doc_name(nm)
+            chk.count("declared-names", "%s %s" % (form, "valid" if want else "invalid"))
+            if accepted is not want:
+                chk.violation("impl-violation", "%s declared with name %r was %s, the documented grammar %s it" % (form, nm, "accepted" if accepted is True else ("rejected" if accepted is False else accepted), "accepts" if want else "rejects"),
+                              {"input": {"part": "declared-names", "form": form, "string": nm}, "impl_observation": accepted, "oracle_verdict": want}, match_key={"declared": form}, size=len(nm))
+
+
 def relative_resolution(chk):
     """':name' dependencies resolve against the directory of the COND file that lists them -- also when the
     same relative string occurs in several COND files of one invocation (real TaskIndex, real files)"""
@@ -224,10 +265,16 @@ def relative_resolution(chk):
     from conductor.task_identifier import TaskIdentifier
 
     dirs = ["alpha", "beta", "alpha/deep", ""]
-    for order in (dirs, list(reversed(dirs))):
+    for order, shared in ((dirs, False), (list(reversed(dirs)), False), (dirs, True), (list(reversed(dirs)), True)):
         files = {}
+        if shared:
+            # the dependency list itself lives in ONE included file: every including COND file sees the same list object
+            files["shared/deps.cond"] = 'DEPS = [":setup"]\n'
         for d in dirs:
-            files[(d + "/" if d else "") + "COND"] = 'run_command(name="setup", run="true")\nrun_command(name="run", run="true", deps=[":setup"])\n'
+            if shared:
+                files[(d + "/" if d else "") + "COND"] = 'include("//shared/deps.cond")\nrun_command(name="setup", run="true")\nrun_command(name="run", run="true", deps=DEPS)\n'
+            else:
+                files[(d + "/" if d else "") + "COND"] = 'run_command(name="setup", run="true")\nrun_command(name="run", run="true", deps=[":setup"])\n'
         deps = ", ".join('"//%s:run"' % d for d in order)
         files["top/COND"] = 'run_command(name="all", run="true", deps=[%s])\n' % deps
         root = implrun.make_project(files)
